@@ -941,7 +941,8 @@ pub fn expect_tree(p: &P) -> Option<Expect> {
             }
             Cond(c, y, n) => {
                 let ct = match &**c {
-                    Exists(g) | Bref(g) => vec![format!("bex:{}", g)],
+                    // only the three group-test spellings are group tests; `(?(\\1)..)` is a general condition (F21)
+                    Exists(g) => vec![format!("bex:{}", g)],
                     o => match go(o)? {
                         Err(e) => return Some(Err(e)),
                         Ok(t) => t,
